@@ -181,6 +181,15 @@ fn starts_with_op(toks: &[TokenTree]) -> bool {
     false
 }
 fn admitted(text: &str, kind: &str) -> Result<(), String> {
+    match admitted2(text, kind) {
+        Ok(false) => Ok(()),
+        Ok(true) => Err("ends with `?`".into()),
+        Err(e) => Err(e),
+    }
+}
+/// Ok(true): admitted on condition that the next operator does not start with `?`.
+fn admitted2(text: &str, kind: &str) -> Result<bool, String> {
+    let mut trailing_q = false;
     let stream: TokenStream = text.parse().map_err(|e| format!("lex: {:?}", e))?;
     let toks: Vec<TokenTree> = stream.clone().into_iter().collect();
     if toks.is_empty() {
@@ -209,8 +218,12 @@ fn admitted(text: &str, kind: &str) -> Result<(), String> {
     }
     if let Some(TokenTree::Punct(p)) = toks.last() {
         // a trailing `>` closes a generic argument list: every prefix that ends before it is unbalanced
-        // and therefore never a complete operand, so it cannot create a split point with what follows
-        if p.as_char() != '>' {
+        // and therefore never a complete operand, so it cannot create a split point with what follows.
+        // a trailing `?` (try operator) only merges with an operator that itself starts with `?`: such
+        // operands are admitted conditionally ("trail:?"), the generator keeps `?`-operators away from them
+        if p.as_char() == '?' {
+            trailing_q = true;
+        } else if p.as_char() != '>' {
             return Err("ends with punctuation (could merge with the following operator)".into());
         }
     }
@@ -225,7 +238,7 @@ fn admitted(text: &str, kind: &str) -> Result<(), String> {
             }
         }
     }
-    Ok(())
+    Ok(trailing_q)
 }
 
 // ---------------------------------------------------------------------------------------------
@@ -347,8 +360,9 @@ fn main() {
         "pool" => {
             let mut ok = Vec::new();
             for c in read_cases(&inp) {
-                match admitted(&c[2], &c[1]) {
-                    Ok(()) => ok.push(c[0].clone()),
+                match admitted2(&c[2], &c[1]) {
+                    Ok(false) => ok.push(c[0].clone()),
+                    Ok(true) => ok.push(format!("{}:q", c[0])),
                     Err(why) => eprintln!("pool: {} rejected: {} ({})", c[0], why, c[2]),
                 }
             }
